@@ -155,6 +155,8 @@ func boundText(quick bool) string {
 	sb.WriteString(worldBoundText(quick))
 	sb.WriteString("; ")
 	sb.WriteString(resubBoundText(quick))
+	sb.WriteString("; ")
+	sb.WriteString(rerankBoundText(quick))
 	return sb.String()
 }
 
